@@ -115,13 +115,17 @@ HANG_SECONDS = 60
 NAMES = {"c": "c-extension(rebuilt)", "py": "pyhv"}
 
 
-def run_worker(run, jobs, so_path):
+def run_worker(run, jobs, so_path, state):
     """Run the jobs in worker processes; returns (results, crashes). A worker that dies or hangs inside a back-end
     call is restarted after that call has been marked 'skip'; the call is reported as a crash."""
     n = len(jobs)
     results = [None] * n
     crashes = []
-    start, restarts, nbad = 0, 0, {}
+    start, restarts, nbad = 0, 0, state["nbad"]
+    for be, cnt in nbad.items():
+        if cnt >= 10:          # disabled in an earlier chunk
+            for j in jobs:
+                j["job"].setdefault("skip", []).append(be)
     worker = os.path.join(os.path.dirname(os.path.abspath(__file__)), "c15_worker.py")
     env = dict(os.environ)
     env["VERIF_REPO"] = vlib.REPO
@@ -146,7 +150,7 @@ def run_worker(run, jobs, so_path):
                     last_size, last_change = size, time.time()
                 if rc is not None:
                     break
-                if time.time() - last_change > HANG_SECONDS:
+                if time.time() - last_change > (HANG_SECONDS if size > 0 else 5 * HANG_SECONDS):
                     p.kill()
                     p.wait()
                     hung = True
@@ -176,7 +180,9 @@ def run_worker(run, jobs, so_path):
                 os.remove(f)
             except OSError:
                 pass
-        if done == n - start and rc == 0:
+        if done == n - start:
+            if rc != 0:
+                run.notes.append("worker finished every job but exited with status %s" % rc)
             try:
                 os.remove(ep)
             except OSError:
@@ -251,6 +257,127 @@ def main(run):
 def _main(run, rng, so_path):
     backends = (["c"] if so_path else []) + ["py"]
     jobs = []          # {"job": what the worker gets, + bookkeeping}
+    state = {"grid_budget": run.scale(800, 8000), "nstress": 0, "ncrash": 0, "nbad": {}}
+    CHUNK = 25000
+
+    def flush():
+        if not jobs:
+            return
+        # ------------------------------------------------------------------ run the implementations
+        results, crashes = run_worker(run, jobs, so_path, state)
+        crashed = {}
+        for idx, be, how in crashes:
+            crashed[(idx, be)] = how
+
+        # ------------------------------------------------------------------ oracle + Coq terms
+        terms, cases = [], []
+        terms2, cases2 = [], []
+        for idx, j in enumerate(jobs):
+            res = results[idx]
+            if j["job"]["k"] == "hv":
+                pts, ref, expected = j["pts"], j["ref"], j["expected"]
+                d = len(ref)
+                case = {"kind": "hv", "tag": j["tag"], "points": [sfr(p) for p in pts], "ref": sfr(ref), "expected": str(expected),
+                        "as_lists": j["job"]["aslist"]}
+                obs = []
+                for be in backends:
+                    name = NAMES[be]
+                    if (idx, be) in crashed:
+                        case[name] = crashed[(idx, be)]
+                        run.oracle_violation("%s.hypervolume(points, ref) %s" % (name, crashed[(idx, be)]), dict(case),
+                                             observed=crashed[(idx, be)])
+                        continue
+                    if res is None or be not in res:
+                        continue            # not run (worker failure recorded in run.broken)
+                    r = res[be]
+                    v = Fraction(r[1]) if r[0] == "ok" else r[1]
+                    case[name] = str(v)
+                    if r[0] != "ok" or v != expected:
+                        run.oracle_violation("%s.hypervolume(points, ref) is not the measure of the union of the boxes "
+                                             "[p, ref)" % name, dict(case), observed=str(v))
+                    if r[0] == "ok":
+                        obs.append(v)
+                nboxes = sum(1 for p in pts if all(p[i] < ref[i] for i in range(d)))
+                if j["stress"]:
+                    state["nstress"] += 1
+                    run.note_case(case, nboxes >= 2, sample=case if state["nstress"] == 7 else None)
+                    if not j["coq"]:
+                        continue
+                ncell = 1
+                for i in range(d):
+                    ncell *= max(1, len(set(p[i] for p in pts)))
+                grid = ncell <= 400 and state["grid_budget"] > 0
+                if grid:
+                    state["grid_budget"] -= 1
+                terms.append("CHv %s %s %s %s" % (cql(ref), cpts(pts), cbool(grid), cql(obs)))
+                cases.append(case)
+                if d <= 2:
+                    # the transcribed one-/two-objective code paths, each against its own implementation
+                    byname = {}
+                    for be in backends:
+                        r = None if res is None else res.get(be)
+                        byname[be] = Fraction(r[1]) if (r is not None and r[0] == "ok") else None
+                    terms.append("CLow %s %s %s %s" % (cql(ref), cpts(pts), copt(byname.get("c"), cq), copt(byname.get("py"), cq)))
+                    cases.append(case)
+                if not j["stress"]:
+                    run.note_case(case, nboxes >= 2, sample=case if run.evaluations % 211 == 1 else None)
+            else:
+                w, vals, refo = j["w"], j["vals"], j["refo"]
+                nobj = len(w)
+                P = [[-(x * wi) for x, wi in zip(v, w)] for v in vals]
+                ref = refo if refo is not None else [max(p[i] for p in P) + 1 for i in range(nobj)]
+                total = measure_ie(P, ref)
+                loo = [measure_ie(P[:i] + P[i + 1:], ref) for i in range(len(P))]
+                losses = [total - x for x in loo]
+                case = {"kind": "population", "weights": sfr(w), "values": [sfr(v) for v in vals],
+                        "ref": None if refo is None else sfr(refo), "ref_as_array": j["job"]["refarr"],
+                        "expected_hv": str(total), "expected_losses": sfr(losses)}
+                obs_hv, obs_idx, obs_contrib = [], [], []
+                for be in backends:
+                    name = NAMES[be]
+                    if (idx, be) in crashed:
+                        case[name] = crashed[(idx, be)]
+                        run.oracle_violation("hypervolume wrappers with back-end %s: %s" % (name, crashed[(idx, be)]), dict(case),
+                                             observed=crashed[(idx, be)])
+                        continue
+                    if res is None or be not in res:
+                        continue
+                    r = res[be]
+                    bt = r["bt"]
+                    v = Fraction(bt[1]) if bt[0] == "ok" else bt[1]
+                    case["benchmarks.tools.hypervolume[%s]" % name] = str(v)
+                    if bt[0] != "ok" or v != total:
+                        run.oracle_violation("benchmarks.tools.hypervolume (back-end %s) is not the measure of the union of the "
+                                             "boxes of the negated weighted objectives (default reference: worst + 1)" % name,
+                                             dict(case), observed=str(v))
+                    if bt[0] == "ok":
+                        obs_hv.append(v)
+                    ind = r["ind"]
+                    i = ind[1]
+                    case["tools.indicator.hypervolume[%s]" % name] = str(i)
+                    if ind[0] != "ok" or not (0 <= i < len(vals)) or losses[i] != min(losses):
+                        run.oracle_violation("tools.indicator.hypervolume (back-end %s) does not return the index of an "
+                                             "individual whose removal reduces the hypervolume the least" % name, dict(case),
+                                             observed=str(i))
+                    if ind[0] == "ok" and i >= 0:
+                        obs_idx.append(i)
+                        contrib = r["contrib"]
+                        if len(contrib) == len(vals) and all(c[0] == "ok" for c in contrib):
+                            obs_contrib.append([Fraction(c[1]) for c in contrib])
+                terms2.append("CPop %s %s %s %s" % (cql(w), cpts(vals), copt(refo, cql), cql(obs_hv)))
+                cases2.append(case)
+                terms2.append("CInd %s %s %s %s %s" % (cql(w), cpts(vals), copt(refo, cql), clist([cnat(i) for i in obs_idx]),
+                                                       clist([cql(c) for c in obs_contrib])))
+                cases2.append(case)
+                run.note_case(case, len(set(losses)) > 1, sample=case if run.evaluations % 150 == 2 else None)
+
+        state["ncrash"] += len(crashes)
+        run.extra_cov["implementation_crashes_or_hangs"] = state["ncrash"]
+        run.extra_cov["stress_cases_oracle_only"] = state["nstress"]
+        run.correspond("hv", "C15", terms, cases, shard=300)
+        run.correspond("pop", "C15", terms2, cases2, shard=150)
+        del jobs[:]
+
 
     # ------------------------------------------------------------------ generation
     def hv_job(pts, ref, tag, expected, stress=False, coq=True):
@@ -365,6 +492,8 @@ def _main(run, rng, so_path):
         pts, ref = gen_set(d, n, style)
         pts, ref = transform(pts, ref)
         hv_set(pts, ref, style, maxperm)
+        if len(jobs) >= CHUNK:
+            flush()
     # sets of maximal size in every dimension
     for d in range(1, 8):
         for style in ("front", "ties"):
@@ -380,6 +509,8 @@ def _main(run, rng, so_path):
         pts = [[Fraction(rng.randint(0, k)) for _ in range(d)] for _ in range(n)]
         ref = [max(p[i] for p in pts) + slack for i in range(d)]
         hv_set(pts, ref, "stress", 0, stress=True)
+        if len(jobs) >= CHUNK:
+            flush()
 
     # populations
     def pop_job(w, vals, refo):
@@ -408,118 +539,6 @@ def _main(run, rng, so_path):
             P = [[-(x * wi) for x, wi in zip(v, w)] for v in vals]
             refo = [max(p[i] for p in P) + rng.choice([0, 1, 1, 2, Fraction(1, 2)]) for i in range(nobj)]
         pop_job(w, vals, refo)
-
-    # ------------------------------------------------------------------ run the implementations
-    results, crashes = run_worker(run, jobs, so_path)
-    crashed = {}
-    for idx, be, how in crashes:
-        crashed[(idx, be)] = how
-
-    # ------------------------------------------------------------------ oracle + Coq terms
-    terms, cases = [], []
-    terms2, cases2 = [], []
-    grid_budget = run.scale(800, 8000)
-    nstress = 0
-    for idx, j in enumerate(jobs):
-        res = results[idx]
-        if j["job"]["k"] == "hv":
-            pts, ref, expected = j["pts"], j["ref"], j["expected"]
-            d = len(ref)
-            case = {"kind": "hv", "tag": j["tag"], "points": [sfr(p) for p in pts], "ref": sfr(ref), "expected": str(expected),
-                    "as_lists": j["job"]["aslist"]}
-            obs = []
-            for be in backends:
-                name = NAMES[be]
-                if (idx, be) in crashed:
-                    case[name] = crashed[(idx, be)]
-                    run.oracle_violation("%s.hypervolume(points, ref) %s" % (name, crashed[(idx, be)]), dict(case),
-                                         observed=crashed[(idx, be)])
-                    continue
-                if res is None or be not in res:
-                    continue            # not run (worker failure recorded in run.broken)
-                r = res[be]
-                v = Fraction(r[1]) if r[0] == "ok" else r[1]
-                case[name] = str(v)
-                if r[0] != "ok" or v != expected:
-                    run.oracle_violation("%s.hypervolume(points, ref) is not the measure of the union of the boxes "
-                                         "[p, ref)" % name, dict(case), observed=str(v))
-                if r[0] == "ok":
-                    obs.append(v)
-            nboxes = sum(1 for p in pts if all(p[i] < ref[i] for i in range(d)))
-            if j["stress"]:
-                nstress += 1
-                run.note_case(case, nboxes >= 2, sample=case if nstress == 7 else None)
-                if not j["coq"]:
-                    continue
-            ncell = 1
-            for i in range(d):
-                ncell *= max(1, len(set(p[i] for p in pts)))
-            grid = ncell <= 400 and grid_budget > 0
-            if grid:
-                grid_budget -= 1
-            terms.append("CHv %s %s %s %s" % (cql(ref), cpts(pts), cbool(grid), cql(obs)))
-            cases.append(case)
-            if d <= 2:
-                # the transcribed one-/two-objective code paths, each against its own implementation
-                byname = {}
-                for be in backends:
-                    r = None if res is None else res.get(be)
-                    byname[be] = Fraction(r[1]) if (r is not None and r[0] == "ok") else None
-                terms.append("CLow %s %s %s %s" % (cql(ref), cpts(pts), copt(byname.get("c"), cq), copt(byname.get("py"), cq)))
-                cases.append(case)
-            if not j["stress"]:
-                run.note_case(case, nboxes >= 2, sample=case if len(cases) % 211 == 1 else None)
-        else:
-            w, vals, refo = j["w"], j["vals"], j["refo"]
-            nobj = len(w)
-            P = [[-(x * wi) for x, wi in zip(v, w)] for v in vals]
-            ref = refo if refo is not None else [max(p[i] for p in P) + 1 for i in range(nobj)]
-            total = measure_ie(P, ref)
-            loo = [measure_ie(P[:i] + P[i + 1:], ref) for i in range(len(P))]
-            losses = [total - x for x in loo]
-            case = {"kind": "population", "weights": sfr(w), "values": [sfr(v) for v in vals],
-                    "ref": None if refo is None else sfr(refo), "ref_as_array": j["job"]["refarr"],
-                    "expected_hv": str(total), "expected_losses": sfr(losses)}
-            obs_hv, obs_idx, obs_contrib = [], [], []
-            for be in backends:
-                name = NAMES[be]
-                if (idx, be) in crashed:
-                    case[name] = crashed[(idx, be)]
-                    run.oracle_violation("hypervolume wrappers with back-end %s: %s" % (name, crashed[(idx, be)]), dict(case),
-                                         observed=crashed[(idx, be)])
-                    continue
-                if res is None or be not in res:
-                    continue
-                r = res[be]
-                bt = r["bt"]
-                v = Fraction(bt[1]) if bt[0] == "ok" else bt[1]
-                case["benchmarks.tools.hypervolume[%s]" % name] = str(v)
-                if bt[0] != "ok" or v != total:
-                    run.oracle_violation("benchmarks.tools.hypervolume (back-end %s) is not the measure of the union of the "
-                                         "boxes of the negated weighted objectives (default reference: worst + 1)" % name,
-                                         dict(case), observed=str(v))
-                if bt[0] == "ok":
-                    obs_hv.append(v)
-                ind = r["ind"]
-                i = ind[1]
-                case["tools.indicator.hypervolume[%s]" % name] = str(i)
-                if ind[0] != "ok" or not (0 <= i < len(vals)) or losses[i] != min(losses):
-                    run.oracle_violation("tools.indicator.hypervolume (back-end %s) does not return the index of an "
-                                         "individual whose removal reduces the hypervolume the least" % name, dict(case),
-                                         observed=str(i))
-                if ind[0] == "ok" and i >= 0:
-                    obs_idx.append(i)
-                    contrib = r["contrib"]
-                    if len(contrib) == len(vals) and all(c[0] == "ok" for c in contrib):
-                        obs_contrib.append([Fraction(c[1]) for c in contrib])
-            terms2.append("CPop %s %s %s %s" % (cql(w), cpts(vals), copt(refo, cql), cql(obs_hv)))
-            cases2.append(case)
-            terms2.append("CInd %s %s %s %s %s" % (cql(w), cpts(vals), copt(refo, cql), clist([cnat(i) for i in obs_idx]),
-                                                   clist([cql(c) for c in obs_contrib])))
-            cases2.append(case)
-            run.note_case(case, len(set(losses)) > 1, sample=case if len(cases2) % 150 == 2 else None)
-
-    run.extra_cov["implementation_crashes_or_hangs"] = len(crashes)
-    run.extra_cov["stress_cases_oracle_only"] = nstress
-    run.correspond("hv", "C15", terms, cases, shard=300)
-    run.correspond("pop", "C15", terms2, cases2, shard=150)
+        if len(jobs) >= CHUNK:
+            flush()
+    flush()
